@@ -300,6 +300,23 @@ func needMore(s []byte) bool {
 	return len(s) < size
 }
 
+// waitFor is WaitUntil with a budget: once several long waits have expired (the implementation is
+// already failing the oracle, e.g. it no longer closes rejected connections) the remaining cases
+// wait only briefly, so that a broken tree is reported in minutes instead of hours.
+var expired int
+
+func waitFor(cond func() bool) bool {
+	d := longWait
+	if expired >= 4 {
+		d = 300 * time.Millisecond
+	}
+	ok := WaitUntil(d, cond)
+	if !ok {
+		expired++
+	}
+	return ok
+}
+
 // ---- one case
 
 type script struct {
@@ -392,7 +409,7 @@ func runCase(srv erpc.Peer, sc *script) *outcome {
 			time.Sleep(settle)
 			return
 		}
-		WaitUntil(longWait, isServed)
+		waitFor(isServed)
 	}
 	for i, ch := range sc.chunks {
 		if len(ch) > 0 {
@@ -407,13 +424,13 @@ func runCase(srv erpc.Peer, sc *script) *outcome {
 		if i == sc.repliesAt {
 			// replies of calls still in flight when the loop meets a broken frame are dropped by
 			// design (the session is passively closing): let them arrive first
-			WaitUntil(longWait, func() bool { return isEOF() || nReplies() >= sc.expectReplies })
+			waitFor(func() bool { return isEOF() || nReplies() >= sc.expectReplies })
 			time.Sleep(2 * time.Millisecond)
 		}
 	}
 	waitServer()
 	if isServed() {
-		WaitUntil(longWait, func() bool {
+		waitFor(func() bool {
 			if isEOF() {
 				return true
 			}
@@ -442,9 +459,9 @@ func runCase(srv erpc.Peer, sc *script) *outcome {
 
 	// client half-closes; everything the server still writes is read until the server closes
 	cc.(*net.TCPConn).CloseWrite()
-	o.eofAfter = WaitUntil(longWait, isEOF)
-	o.servedInTime = WaitUntil(longWait, isServed)
-	WaitUntil(longWait, func() bool {
+	o.eofAfter = waitFor(isEOF)
+	o.servedInTime = waitFor(isServed)
+	waitFor(func() bool {
 		recMu.Lock()
 		defer recMu.Unlock()
 		return recOf(addr).disc >= 1
@@ -941,7 +958,12 @@ func main() {
 	st.Rule = "case = (checker behaviour, client byte stream, split); first action in {auth-ok, auth-wrong, call, push, reply, unknown-type, malformed:*, truncated, nothing, auth-status, auth-codec} x checker {recv once eq/all/none, recv twice propagate/ignore, no recv accept/reject} x split {one-write, pause-after-first, byte-by-byte, pause-at-random-offset} x 0..4 pipelined frames (+ truncated/malformed tail); distinct by (checker, stream, split); non-trivial = stream non-empty"
 	w := NewCaseWriter(cfg)
 	distinct := DistinctSet{}
+	done := 0
 	for i := 0; i < cfg.N; i++ {
+		if len(st.OracleFailures) >= 50 {
+			break // the tree already fails the oracle many times over; do not sit through every timeout
+		}
+		done++
 		sc := genCase(cfg)
 		o := runCase(srv, sc)
 		st.Count("first:" + sc.class)
@@ -966,7 +988,7 @@ func main() {
 			st.Samples = append(st.Samples, sc.human+" => "+render(o))
 		}
 	}
-	st.Evaluations = cfg.N
+	st.Evaluations = done
 	st.DistinctNontrivial = len(distinct)
 	st.Write(cfg, w)
 }
